@@ -8,8 +8,8 @@
 #include <sys/mman.h>
 
 static const char *const CNT[] = { "states", "transitions", "replayed_calls", "fixpoint_reached", "depth_cap_hit", "ev_DOFACT", "ev_SamePattern", "ev_SameRowPerm", "ev_FACTORED",
-    "rowperm_reused", "rowperm_abandoned", "singular_transitions", "dofact_differential_checked", "samepattern_equals_dofact", "samepattern_differs_dofact", "expansions_during_reuse", "sum_of_max_depths", "workspace_configs", "ilu_transitions", "symmetric_mode_configs", "zero_threshold_configs", "row_storage_configs", "transitions_failing_with_recorded_finding", NULL };
-enum { C_STATES, C_TRANS, C_CALLS, C_FIX, C_CAP, C_EV0, C_EV1, C_EV2, C_EV3, C_REUSED, C_ABAND, C_SING, C_DIFF, C_SPEQ, C_SPNE, C_EXPR, C_MAXD, C_WS, C_ILU, C_SYMC, C_U0, C_NRC, C_KNOWNEDGE };
+    "rowperm_reused", "rowperm_abandoned", "singular_transitions", "dofact_differential_checked", "samepattern_equals_dofact", "samepattern_differs_dofact", "expansions_during_reuse", "sum_of_max_depths", "workspace_configs", "ilu_transitions", "symmetric_mode_configs", "zero_threshold_configs", "row_storage_configs", "transitions_failing_with_recorded_finding", "etree_consistency_checked", NULL };
+enum { C_STATES, C_TRANS, C_CALLS, C_FIX, C_CAP, C_EV0, C_EV1, C_EV2, C_EV3, C_REUSED, C_ABAND, C_SING, C_DIFF, C_SPEQ, C_SPNE, C_EXPR, C_MAXD, C_WS, C_ILU, C_SYMC, C_U0, C_NRC, C_KNOWNEDGE, C_ETREE };
 static const char *const RAT[] = { "residual_over_allowance", "lu_identity_over_allowance", NULL };
 
 #define NV 5
@@ -128,6 +128,17 @@ static int apply(sess *S, int ev, int judge, vres *r, uint64_t *dofact_ref)
         if (ref_numerically_singular(&S->Aun) == 0 && !(v == 3) && c->u > 0) return wk_fail(r, "spurious-singular", "info=%ld although the matrix of this call is comfortably nonsingular", info);
         return 0;         /* genuinely (near-)singular values: C04's business */
     }
+    /* the column order and the elimination tree carried between calls stay consistent with each other: etree is the elimination tree of the matrix in
+       the order perm_c (fresh after DOFACT, inputs of the reuse modes) */
+    if (kind != 3 && is_perm(s->perm_c, n)) {
+        dmat Fp; xs_current_A(s, &Fp); if (s->stor) { dmat Ft; transpose_dm(&Fp, &Ft); Fp = Ft; }
+        int want[NMAX]; ref_etree(&Fp, s->perm_c, n, 0, want);   /* sp_preorder builds the column elimination tree in symmetric mode as well (ETREE_ATplusA is undefined) */
+        for (int j = 0; j < n; j++) if (s->etree[j] != want[j]) {
+            char pb[80] = "", eb[80] = "", wb[80] = ""; size_t o1 = 0, o2 = 0, o3 = 0;
+            for (int q = 0; q < n; q++) { o1 += snprintf(pb + o1, sizeof pb - o1, "%d ", s->perm_c[q]); o2 += snprintf(eb + o2, sizeof eb - o2, "%d ", s->etree[q]); o3 += snprintf(wb + o3, sizeof wb - o3, "%d ", want[q]); }
+            return wk_fail(r, "etree-inconsistent", "after the call etree[%d]=%d but the elimination tree of the matrix in the order perm_c has parent %d (perm_c = %s; etree = %s; expected %s)", j, s->etree[j], want[j], pb, eb, wb); }
+        WK_COUNT(C_ETREE);
+    }
     /* scaling identities (equed must stay what it was for FACTORED) */
     if (o_scaling(s, &A_in, &B_in, trans, kind == 3 ? 2 : c->equil, r)) return 1;
     /* factors: structure + identity + multiplier bound with respect to THIS call's (equilibrated) matrix */
@@ -232,14 +243,14 @@ static void run_C06(const vcase *c, vres *r)
 }
 
 /* configurations */
-static const int TUNE_H[] = { 3, 5, 9, 0 };
+static const int TUNE_H[] = { 3, 10, 9, 0, 5, 4 };   /* (2,1,2..), (2,4,4..) relaxed supernodes of up to 4 columns, one relaxed supernode, defaults, (3,1,4..), (2,2,3..) */
 static const int VALS_H[] = { 2, 1, 7 };
 static const int ORD_H[8][2] = { { 3, 0 }, { 0, 0 }, { 2, 1 }, { 0, 1 }, { 1, 0 }, { 2, 0 }, { 3, 1 }, { 1, 1 } };   /* (ColPerm, SymmetricMode) */
 static const int U_H[] = { 0, 1, 4 };                         /* DiagPivotThresh 1, 0.1, 0 */
 static const int ILU_H[] = { -1, 0, 8, 23, 197 };            /* xgssvx | xgsisx: NODROP; BASIC tol .5; BASIC|AREA tol 1e-4 fill 1; BASIC tol .5 SMILU_2 */
 static void set06(const int *d, vcase *c)
 {
-    static const int BASES6[] = { 2, 7, 8, 1, 5, 3 };   /* arrow-last, grid, irregular, tridiagonal, bidiagonal+row, arrow-first */
+    static const int BASES6[] = { 2, 7, 8, 1, 11, 12, 5, 3 };   /* arrow-last, grid, irregular, tridiagonal, interleaved chains (natural order not a postorder), the same joined by a dense column, bidiagonal+row, arrow-first */
     c->n = c->m = 6; c->pat = dev1_pattern(6, base_pattern(6, BASES6[d[0]]), d[1]); c->type = d[2]; set_tune(c, TUNE_H[d[3]]); c->colperm = ORD_H[d[4]][0]; c->sym = ORD_H[d[4]][1];
     c->equil = d[5]; c->refine = d[6]; c->lworkmode = d[7]; c->vals = VALS_H[d[8]]; c->u = U_LIST[U_H[d[9]]]; c->tune[6] = 1; c->fest = 1; c->rhs = 0; c->trans = 0; c->permid = -1;
     c->stor = 0; c->aux2 = 0;
@@ -267,9 +278,9 @@ static const family F06Qo[] = {
     { "xgsisx: BASE6 x6 x dev{0,1} x type4 x tune{(2,1,2..),default} x {COLAMD,NATURAL} x Equil2 x storage2 x {NODROP, BASIC tol .5, BASIC|AREA fill 1}", 8, { 6, 2, 4, 2, 2, 2, 2, 3 }, set06i },
 };
 static const family F06T[] = {
-    { "xgssvx: BASE6 x6 x dev{0..8} x type4 x tune4 x (colperm4 x sym2) x Equil2 x refine2 x storage2 x vals3 x u{1,.1,0}: full reachability per configuration", 10, { 6, 9, 4, 4, 8, 2, 2, 2, 3, 3 }, set06 },
-    { "xgsisx: BASE6 x6 x dev{0..8} x type4 x tune{(2,1,2..),default} x (colperm4 x sym2) x Equil2 x storage2 x {NODROP, BASIC tol .5, BASIC|AREA fill 1, BASIC tol .5 SMILU_2}", 8, { 6, 9, 4, 2, 8, 2, 2, 4 }, set06i },
-    { "xgssvx on row storage: BASE6 x6 x dev{0..8} x type4 x (colperm4 x sym2) x Equil2 x refine2 x u{1,.1,0}", 7, { 6, 9, 4, 8, 2, 2, 3 }, set06r },
+    { "xgssvx: BASE6 x8 x dev{0..8} x type4 x tune6 x (colperm4 x sym2) x Equil2 x refine2 x storage2 x vals3 x u{1,.1,0}: full reachability per configuration", 10, { 8, 9, 4, 6, 8, 2, 2, 2, 3, 3 }, set06 },
+    { "xgsisx: BASE6 x8 x dev{0..8} x type4 x tune{(2,1,2..),default} x (colperm4 x sym2) x Equil2 x storage2 x {NODROP, BASIC tol .5, BASIC|AREA fill 1, BASIC tol .5 SMILU_2}", 8, { 8, 9, 4, 2, 8, 2, 2, 4 }, set06i },
+    { "xgssvx on row storage: BASE6 x8 x dev{0..8} x type4 x (colperm4 x sym2) x Equil2 x refine2 x u{1,.1,0}", 7, { 8, 9, 4, 8, 2, 2, 3 }, set06r },
 };
 static const family F06To[] = {
     { "xgssvx: BASE6 x6 x dev{0..4} x type4 x tune3 x {COLAMD,NATURAL,MMD_AT+A sym,NATURAL sym} x Equil2 x refine2 x storage2 x vals{V2,V1} x u{1,.1,0}", 10, { 6, 5, 4, 3, 4, 2, 2, 2, 2, 3 }, set06 },
